@@ -198,6 +198,24 @@ CHECKS = {
              'from the start.',
         note='Failed tasks without error handlers; reset=False left to '
              'with-items (C07).'),
+    'C14': dict(
+        level='exploration', design='3/C14', engine='input-mc',
+        technique='bounded exhaustive input enumeration: every single-node '
+                  'mutation (36 replacement values, deletion, 16 key '
+                  'renames, insertions) of every seed definition and a raw '
+                  'text catalogue, through parser, validate and create '
+                  'entry points, against totality / stability / '
+                  'runnability oracles',
+        text='Every node of every seed (generator programs, bundled '
+             'workflows, workbooks, action lists) x the mutation catalogue '
+             '(thorough: all pairs on small seeds) goes through the direct '
+             'parser call, POST .../validate and create: outcome accepted or '
+             'definition error only (no internal error, 5 s CPU watchdog), '
+             'specs rebuilt from their stored forms are equal, workbook '
+             'members re-parse to themselves, runs from stored forms equal '
+             'runs from fresh specs.',
+        note='REST in-process through the pecan test app; mutated texts in '
+             'block style; bounds in evidence.'),
     'C15': dict(
         level='model_checking', design='3/C15', engine='op-mc',
         technique='exhaustive enumeration of setups x callers x every '
@@ -353,7 +371,7 @@ def main():
                                'configuration spaces over the real DB API '
                                'and WSGI app against reference models'},
             {'name': 'input-mc', 'path': 'checks/c19.py',
-             'serves_properties': ['C19'],
+             'serves_properties': ['C14', 'C19'],
              'kind_free_text': 'exhaustive enumeration of a finite input '
                                'catalogue against a reference model'},
             {'name': 'engine-explorer', 'path': 'mc/explore.py',
